@@ -50,7 +50,13 @@ def run(ctx):
         ctx.ob('2b unselected-columns-copied', 'anchor', mg.path, 'migrate copies unselected columns', len(cc) == 1, str(cc))
         # salt forced before destination open
         st = [bi for bi in mg.normal_blocks() for s in mg.blocks[bi]['s'] if s['k'] == 'assign' and '.Options.salt' in s['p'][1:] and s['p'][0] == 2]
-        oc = mg.call_sites('db::Db::open_or_create')
+        oc = mg.call_sites('re:^db::Db::open_or_create\\w*$')
+        # an open that is told the version to create (and refuses another one) settles the destination's version by itself
+        def versioned_open(x):
+            t = mg.term(x)
+            return call_matches(t, ['re:^db::Db::open_or_create_in_version$']) and len(t['a']) > 1 and op_place(t['a'][1]) is not None and \
+                '.Metadata.version' in backward_slice(mg, [op_place(t['a'][1])]).fields
+        oc_versioned = [x for x in oc if versioned_open(x)]
         lib.precedes(ctx, '5a salt-forced-before-dest-open', mg, st, oc, 'the destination options get the source salt before the destination database is opened (same key hashing)')
         ok = False
         for bi in st:
@@ -94,7 +100,8 @@ def run(ctx):
                         return False
             return True
         wv = [(fb, x) for fb in fam for x, t in fb.calls() if x in fb.normal_blocks() and call_matches(t, WV)]
-        ctx.ob('5g0 versioned-metadata-writes', 'anchor', mg.path, 'migrate (or a helper of it) writes the destination metadata and, in place, the source metadata with an explicit version', len(wv) >= 2, str([(fb.path, x) for fb, x in wv]))
+        ctx.ob('5g0 versioned-metadata-writes', 'anchor', mg.path, 'migrate (or a helper of it) writes the destination metadata and, in place, the source metadata with an explicit version (the destination may instead be created by an open that is given the version)',
+               len(wv) >= 2 or (len(wv) >= 1 and len(oc_versioned) >= 1), str([(fb.path, x) for fb, x in wv]))
         for i, (fb, x) in enumerate(wv):
             t = fb.term(x)
             v = t['a'][3] if len(t['a']) > 3 else None
@@ -115,8 +122,12 @@ def run(ctx):
         for fb in fam:
             if fb is not mg and fb.kind != 'Closure' and version_compares(fb):
                 settled += mg.call_sites(fb.path)
-        lib.precedes(ctx, '5h destination-version-settled-before-open', mg, sorted(set(settled)), oc,
-                     'before the destination is opened (which would create it with CURRENT_VERSION) its metadata was written with the source version, or its existing version was compared with it')
+        plain_oc = [x for x in oc if x not in oc_versioned]
+        if not plain_oc and oc_versioned:
+            ctx.ob('5h destination-version-settled-before-open', 'K2-order', mg.path, 'every open of the destination is given the source version (it creates the metadata with it under the lock, or refuses an existing destination in another version)', True, '')
+        else:
+            lib.precedes(ctx, '5h destination-version-settled-before-open', mg, sorted(set(settled) | set(oc_versioned)), plain_oc,
+                         'before the destination is opened (which would create it with CURRENT_VERSION) its metadata was written with the source version, or its existing version was compared with it')
     if mg:
         ins = [bi for bi, t in mg.calls() if call_matches(t, ['re:BTreeSet.*::insert$', 're:BTreeSet.*Extend<.*>>::extend$', 're:BTreeSet.*::extend$', 're:BTreeSet.*::append$']) and bi in mg.normal_blocks()]
         # the automatic selection: an insert that depends on a comparison of source and destination column options
